@@ -1080,3 +1080,16 @@ def guard_influences(body, site, depth=3, _seen=None):
                             c2, f2, b2 = guard_influences(body, d[0], depth - 1, _seen)
                             calls |= c2; fields |= f2; binops |= b2
     return calls, fields, binops
+
+
+def deep_calls(F, calls):
+    """callee names in `calls` plus everything the crate bodies (incl. closures) among them may call."""
+    res = set(calls)
+    roots = [c for c in calls if F.body(c) is not None]
+    for x in F.transitive_callees(roots):
+        res.add(x)
+        b = F.body(x)
+        if b is not None:
+            for bi, t in b.calls():
+                res |= set(call_names(t))
+    return res
